@@ -3,6 +3,7 @@ import copy
 import logging
 
 from harness import core
+from harness.props import c41_gen
 from harness.pyval import enc, Unencodable, strict_eq, to_json, from_json
 
 ID = 'C41'
@@ -17,19 +18,26 @@ RULE = ('documents built through the real engine (AddTable with Any/Text/Numeric
         "column's own cells, cross-type equal variants (1 <-> 1.0 <-> True, list <-> tuple), and a mixed pool with "
         'unhashable lists/dicts/tuples-containing-lists; a case is non-trivial when the query is non-empty and the '
         'table has a live row (the filter loop ran) or the query names a missing column')
-TRUSTED = ['Model/FetchQuery.v is hand-written; tied to engine.fetch_table by evaluating both on the same generated '
+TRUSTED = ['harness/imp2v.py (fail-closed translator Python subset -> monadic Gallina, Lib/PyImp.v): Engine.fetch_table is '
+           'translated from engine.py into coq/gen/FetchQuery_gen.v on every run, proved equal to the hand model '
+           '(C41_source_bridge) and evaluated against the running method on every generated case',
+           'Model/FetchQueryPy.v: the typed primitives the library calls map to (get_column/KeyError, set()/TypeError, '
+           '`in` on a set/TypeError, raw_get, column flags)',
+           'Model/FetchQuery.v is hand-written; also tied to engine.fetch_table by evaluating both on the same generated '
            'tables/flags/queries on every run (vm_compute inside Coq)',
            'Lib/PyVal.v py_eq/hashable as the model of Python == / hash on None, bool, int, half-integer floats, str, '
            'list, tuple (nested); CPython set membership = existence of an ==-equal element for these types '
            '(hash consistent with ==)',
            'the harness encoder of Python values into the model value type (objects outside it - dicts, Records, '
            'inf, non-half-integer floats - become opaque tokens compared by type and repr)']
-ASSUMPTIONS = ['query is None or a dict mapping column id -> list of values (a non-iterable "values" is swallowed by the '
+ASSUMPTIONS = ['column ids of a table are distinct (all_columns is a dict; hypothesis of C41_source_bridge)',
+               'query is None or a dict mapping column id -> list of values (a non-iterable "values" is swallowed by the '
                'same except TypeError and yields no rows; not modelled)',
                'no NaN among cells or requested values (Python containers test identity before ==)',
                '1 == 1.0 == True and 0 == 0.0 == False mixes ARE part of the main stream and are modelled (floats as '
                'twice their value; only half-integer floats of magnitude < 2^40 are generated as numbers)']
-TECHNIQUE = 'Coq proof over a hand-written model + differential cases against the real engine + naive-filter oracle'
+TECHNIQUE = ('Coq proof over a hand-written model bridged to fetch_table as translated from source on every run '
+             '(imp2v) + differential cases against the real engine + naive-filter oracle')
 LEVEL_TEXT = ('Kernel-checked theorems, for all tables, flags and queries: the model of Engine.fetch_table equals the '
               'declarative filter (live row ids, strictly ascending, whose stored value in every queried column == a '
               'requested value; KeyError exactly for a missing column; columns chosen by the formulas/private flags, '
@@ -42,6 +50,10 @@ LEVEL_NOTE = ('Trusted: Coq kernel; py_eq/hashable as model of Python ==/hash on
               'non-list "values".')
 
 logging.disable(logging.CRITICAL)
+
+
+def regenerate(ctx):
+  c41_gen.regenerate(ctx)
 
 # ---------------------------------------------------------------------------------------------
 # documents
@@ -293,7 +305,7 @@ def features(e, target, query, res):
 
 def gen_cases(ctx):
   """yields (doc index, doc, engine, target, formulas, private, query)"""
-  ndocs = ctx.n(36, 420)
+  ndocs = ctx.n(26, 420)
   per = 15
   for di in range(ndocs):
     doc = gen_doc(ctx.rng)
@@ -346,15 +358,20 @@ def correspond(ctx):
   coq = ['(mk_group %s %s)' % (g[0], core.coq_list(g[1])) for g in gs]
   ctx.log('cases: %d on %d tables' % (sum(len(g[1]) for g in gs), len(gs)))
   # one Coq case = one table with all its queries; a failing query makes its whole group fail
-  bad = ctx.run_cases('fetch', ['Grist.Lib.PyVal', 'Grist.Model.FetchQuery'],
-                      "fun c => forallb (fun x => let '(f, p, q, e) := x in result_eqb (fetch (fst c) f p q) e) (snd c)",
+  # both the hand model and the function translated from the source this run are evaluated on every case
+  bad = ctx.run_cases('fetch', ['Grist.Lib.PyVal', 'Grist.Lib.PyImp', 'Grist.Model.FetchQuery', 'Grist.Model.FetchQueryPy',
+                                'GristGen.FetchQuery_gen'],
+                      "fun c => forallb (fun x => let '(f, p, q, e) := x in result_eqb (fetch (fst c) f p q) e && "
+                      "result_eqb (unlift (fetch_table (fun _ => fst c) [] f p (query_in q))) e) (snd c)",
                       coq, shard=12,
                       # typed constructors, so empty queries / row lists / column lists never leave a type open
-                      extra_defs='Definition mk_q (f p : bool) (q : query) (e : result table_data) := (f, p, q, e).\n'
+                      extra_defs='Definition unlift (r : exc table_data) : result table_data := match r with Val x => Ok x '
+                                 '| Exn (KeyError c) => ErrKeyError c | Exn _ => ErrKeyError [] end.\n'
+                                 'Definition mk_q (f p : bool) (q : query) (e : result table_data) := (f, p, q, e).\n'
                                  'Definition mk_group (t : table) (l : list (bool * bool * query * result table_data)) '
                                  ':= (t, l).')
   for i in bad[:3]:
-    ctx.broken('correspondence:model fetch differs from engine.fetch_table',
+    ctx.broken('correspondence:model fetch or translated fetch_table differs from engine.fetch_table',
                'one of the queries %r on the table of %r' % ([(w['formulas'], w['private'], w['query']) for w in gs[i][2]],
                                                             {k: gs[i][2][0][k] for k in ('doc', 'target')}))
 
